@@ -39,6 +39,12 @@ type Val struct {
 	Fn    *ssa.Function
 	Binds []Val
 	Name  string
+	Outer []outerRef // enclosing structs of an interior pointer (for type invariants of the enclosing value)
+}
+
+type outerRef struct {
+	addr string
+	ty   types.Type
 }
 
 func term(t string, ty types.Type) Val { return Val{K: vTerm, T: t, Ty: ty} }
@@ -155,6 +161,13 @@ func (e *Enc) define(prefix, sort, t string) string {
 	}
 	e.nfresh++
 	name := fmt.Sprintf("%s!%d", sanitize(prefix), e.nfresh)
+	if strings.HasPrefix(sort, "(Array") && strings.HasPrefix(t, "(ite ") {
+		// heap versions are used inside quantifier patterns; a define-fun would be expanded there
+		// and an ite is not allowed in a pattern, so name it with a constant instead
+		e.declare(fmt.Sprintf("(declare-const %s %s)", name, sort))
+		e.items = append(e.items, fmt.Sprintf("(assert (= %s %s))", name, t))
+		return name
+	}
 	e.items = append(e.items, fmt.Sprintf("(define-fun %s () %s %s)", name, sort, t))
 	return name
 }
